@@ -169,7 +169,28 @@ func cmdExplore(args []string) {
 		o.OutcomeKeys = append(o.OutcomeKeys, k)
 	}
 	o.Sample = eventStrings(ex.Sample)
-	for _, v := range ex.Violations {
+	for i, v := range ex.Violations {
+		// before a violation is reported its schedule is replayed twice: identical trace and the same verdict,
+		// otherwise the machinery (not the code under test) is at fault
+		if i < 5 {
+			var h [2]uint64
+			for k := 0; k < 2; k++ {
+				r, _ := ex.RunOne(v.Choices, false)
+				h[k] = r.TraceHash
+				found := false
+				for _, d := range ex.Check(r) {
+					if d == v.Desc {
+						found = true
+					}
+				}
+				if !found {
+					fail("violation %q did not recur when its schedule was replayed", v.Desc)
+				}
+			}
+			if h[0] != h[1] {
+				fail("replay of a violating schedule is not deterministic")
+			}
+		}
 		o.Violations = append(o.Violations, ViolationOut{Desc: v.Desc, Choices: v.Choices, Events: eventStrings(v.Events)})
 	}
 	data, _ := json.MarshalIndent(o, "", " ")
